@@ -4,6 +4,8 @@ package main
 
 import (
 	"fmt"
+	"os"
+	"runtime/debug"
 	"go/constant"
 	"go/token"
 	"go/types"
@@ -174,6 +176,7 @@ type ctx struct {
 	ghostConst   map[string]term
 	inInv        bool
 	inMerge      bool
+	typeIDs      map[string]int
 	noAllocFacts bool
 	lastInst     *ssa.Function
 	frames       []*frame
@@ -449,6 +452,9 @@ func (x *ctx) setArr(st *state, key string, newTerm string) {
 
 func (x *ctx) havocKey(st *state, key string) {
 	key = x.akey(key)
+	if os.Getenv("GOVC_TRACE_HAVOC") == key {
+		debugf("havoc %s: %s", key, string(debug.Stack()))
+	}
 	hi, ok := x.hinfo[key]
 	if !ok {
 		return // never read or written so far: the initial array is already arbitrary
@@ -487,6 +493,36 @@ func (x *ctx) readLeafHeap(st *state, l *loc, key string, s srtT) term {
 		x.noteAllocated(st, r)
 	}
 	return r
+}
+
+// typeTag: a non-nil reference of static map / pointer-to-struct type T points to an object of that type, so
+// references of different static types never alias.
+func (x *ctx) typeTag(st *state, r term, t types.Type) {
+	if r.s == "" || r.srt != sRef || t == nil || x.noAllocFacts || len(r.s) > 400 {
+		return
+	}
+	var name string
+	switch u := t.Underlying().(type) {
+	case *types.Map:
+		name = "map:" + types.TypeString(t, nil)
+	case *types.Pointer:
+		if _, ok := u.Elem().Underlying().(*types.Struct); !ok {
+			return
+		}
+		if _, opaque := opaqueSort(u.Elem()); opaque {
+			return
+		}
+		name = "ptr:" + structName(u.Elem())
+	default:
+		return
+	}
+	id, ok := x.typeIDs[name]
+	if !ok {
+		id = len(x.typeIDs) + 1
+		x.typeIDs[name] = id
+	}
+	x.declare("G_rtype", "(Array (_ BitVec 64) (_ BitVec 16))")
+	st.define(or(eq(r, null), fmt.Sprintf("(= (select G_rtype %s) %s)", r.s, bvlit(uint64(id), 16))))
 }
 
 // noteAllocated: a reference read from memory denotes an object that already exists (or nil).
@@ -533,6 +569,7 @@ func (x *ctx) readHeap(st *state, l *loc, key string, t types.Type) val {
 		if _, isSig := t.Underlying().(*types.Signature); isSig {
 			v.origin = key
 		}
+		x.typeTag(st, v.t, t)
 		return v
 	}
 	switch u := t.Underlying().(type) {
@@ -1115,6 +1152,7 @@ func (x *ctx) run(st *state, fr *frame, b *ssa.BasicBlock, idx int, prev *ssa.Ba
 					x.assumeFreshRef(st, r)
 					x.writeHeap(st, &loc{base: r, key: structName(t), typ: t}, structName(t), t, x.zeroVal(t))
 					x.lastAllocType[r.s] = t
+					x.typeTag(st, r, types.NewPointer(t))
 					fr.regs[in] = scalar(r)
 					delete(st.cells, id)
 					continue
